@@ -105,11 +105,24 @@ type wireErr struct {
 	Data    json.RawMessage `json:"data,omitempty"`
 }
 
+// canonErr renders an error as code:message:data.  A *wireError (unexported, but it marshals with
+// its json tags) is read through encoding/json, so its optional `data` member is visible; any other
+// error is what toWireError makes of it: message = Error(), code of a wrapped wire error, no data.
 func canonErr(err error) string {
 	if err == nil {
 		return "-"
 	}
-	// wire errors expose code through errors.Is on the std errors only; use JSON of a response
+	if b, merr := json.Marshal(err); merr == nil {
+		var probe map[string]json.RawMessage
+		if json.Unmarshal(b, &probe) == nil {
+			if _, isWire := probe["code"]; isWire {
+				var w wireErr
+				if json.Unmarshal(b, &w) == nil {
+					return fmt.Sprintf("%d:%s:%s", w.Code, strconv.Quote(w.Message), compact(w.Data))
+				}
+			}
+		}
+	}
 	code := int64(0)
 	for _, c := range []int64{-32700, -32600, -32601, -32602, -32603, -32000, -32001, -32002, -32003, 7, -1, 0, 1 << 40} {
 		if errors.Is(err, jsonrpc2.NewError(c, "")) {
@@ -117,7 +130,7 @@ func canonErr(err error) string {
 			break
 		}
 	}
-	return fmt.Sprintf("%d:%s", code, strconv.Quote(err.Error()))
+	return fmt.Sprintf("%d:%s:-", code, strconv.Quote(err.Error()))
 }
 
 func canonMsg(m jsonrpc2.Message) string {
@@ -414,6 +427,238 @@ func runSequence(r *vh.Rand, o *vh.Out, n int) []byte {
 	return stream
 }
 
+
+// ---- relay: wire text -> Reader -> Writer -> Reader ------------------------------------------------
+
+var relayIDs = []string{"1", "\"a\"", "1.0", "1e2", "1.5", "-0", "9007199254740993", "null", "true", "[1]", "{\"a\":1}", "", "", "42", "\"\"", "-7"}
+var relayData = []string{"", "null", "true", "1", "1.50", "\"s\"", "[1, 2]", "{\"k\": [{}]}", "\"  spaced  \"", "[]", "{}", "-0.0", "\"\\u00e9\"", "[null,{\"a\":{\"b\":[1,2,{\"c\":null}]}}]"}
+var relayVals = []string{"{}", "[1,2]", "null", "\"s\"", "3.25", "{\"a\": [1, 2]}", "true", "[ ]", "{\"jsonrpc\":\"1.0\"}"}
+
+func genWireText(r *vh.Rand) string {
+	var members []string
+	add := func(k, v string) { members = append(members, strconv.Quote(k)+r.Pick([]string{":", ": ", " : "})+v) }
+	ver := "\"2.0\""
+	if r.Chance(4) {
+		ver = r.Pick([]string{"\"1.0\"", "2.0", "null"})
+	}
+	if !r.Chance(3) {
+		add("jsonrpc", ver)
+	}
+	if id := r.Pick(relayIDs); id != "" {
+		add("id", id)
+	}
+	switch r.Intn(10) {
+	case 0, 1, 2, 3: // request / notification
+		add("method", strconv.Quote(r.Pick(methods)))
+		if r.Chance(70) {
+			add("params", r.Pick(relayVals))
+		}
+		if r.Chance(8) {
+			add("result", r.Pick(relayVals)) // a request has no such member: dropped by design
+		}
+	case 4, 5: // result response
+		add("result", r.Pick(relayVals))
+	default: // error response
+		var em []string
+		if !r.Chance(6) {
+			em = append(em, "\"code\":"+r.Pick([]string{"-32000", "-32601", "0", "7", "-32700", "1099511627776"}))
+		}
+		if !r.Chance(6) {
+			em = append(em, "\"message\":"+strconv.Quote(r.Pick([]string{"m", "", "é \"q\"", "failed: x"})))
+		}
+		if d := r.Pick(relayData); d != "" {
+			em = append(em, "\"data\":"+d)
+		}
+		if r.Chance(10) {
+			em = append(em, "\"extra\":[1]")
+		}
+		for i := len(em) - 1; i > 0; i-- { // member order
+			k := r.Intn(i + 1)
+			em[i], em[k] = em[k], em[i]
+		}
+		e := "{" + strings.Join(em, r.Pick([]string{",", ", ", ",\n "})) + "}"
+		if r.Chance(4) {
+			e = r.Pick([]string{"null", "\"boom\"", "[]"})
+		}
+		add("error", e)
+		if r.Chance(25) {
+			add("result", r.Pick(relayVals))
+		}
+	}
+	if r.Chance(15) {
+		add(r.Pick([]string{"extra", "x-trace", "Jsonrpc2"}), r.Pick([]string{"{\"x\":1}", "1", "\"t\"", "null"}))
+	}
+	for i := len(members) - 1; i > 0; i-- {
+		k := r.Intn(i + 1)
+		members[i], members[k] = members[k], members[i]
+	}
+	return r.Pick([]string{"{", "{ ", "{\n"}) + strings.Join(members, r.Pick([]string{",", ", ", ",\n\t"})) + r.Pick([]string{"}", " }", "\n}"})
+}
+
+// expectedRelayPayload: what the Writer must produce for a decoded wire text, as a canonical
+// string.  Allowed to differ from the original text: white space, member order, unknown members
+// (dropped), the spelling of a numeric id (written as int64(float64(id))), `null` id / error
+// (dropped), members a message kind does not have (result/error of a request; method/params of a
+// response), defaults for a missing error code/message (0 / ""), repeated members (last wins).
+// Everything else — params, result, error code, message and DATA — must come back compacted, unchanged.
+func canonPayload(text []byte) (string, bool) {
+	var m map[string]json.RawMessage
+	if json.Unmarshal(text, &m) != nil {
+		return "", false
+	}
+	get := func(k string) string {
+		v, ok := m[k]
+		if !ok {
+			return "-"
+		}
+		return compact(v)
+	}
+	id := "-"
+	if v, ok := m["id"]; ok && string(bytes.TrimSpace(v)) != "null" {
+		var f float64
+		var str string
+		if json.Unmarshal(v, &str) == nil {
+			id = strconv.Quote(str)
+		} else if json.Unmarshal(v, &f) == nil {
+			id = strconv.FormatInt(int64(f), 10)
+		} else {
+			return "", false
+		}
+	}
+	var method string
+	if v, ok := m["method"]; ok {
+		if json.Unmarshal(v, &method) != nil {
+			return "", false
+		}
+	}
+	if method != "" {
+		return "REQ id=" + id + " method=" + strconv.Quote(method) + " params=" + get("params"), true
+	}
+	e := "-"
+	if v, ok := m["error"]; ok && string(bytes.TrimSpace(v)) != "null" {
+		var w wireErr
+		if json.Unmarshal(v, &w) != nil {
+			return "", false
+		}
+		e = fmt.Sprintf("%d:%s:%s", w.Code, strconv.Quote(w.Message), compact(w.Data))
+	}
+	return "RSP id=" + id + " result=" + get("result") + " error=" + e, true
+}
+
+func frameOf(payload string, r *vh.Rand) string {
+	h := fmt.Sprintf("Content-Length: %d\r\n", len(payload))
+	if r.Chance(15) {
+		h = "Content-Type: application/vscode-jsonrpc; charset=utf-8\r\n" + h
+	}
+	return h + "\r\n" + payload
+}
+
+func runRelay(r *vh.Rand, o *vh.Out) {
+	var stream1 []byte
+	var texts []string
+	for i, n := 0, 1+r.Intn(4); i < n; i++ {
+		t := genWireText(r)
+		texts = append(texts, t)
+		stream1 = append(stream1, frameOf(t, r)...)
+	}
+	r1line := "c38r\t" + vh.Hex(stream1)
+	// pass 1: read
+	rd := jsonrpc2.HeaderFramer().Reader(bytes.NewReader(stream1))
+	var msgs []jsonrpc2.Message
+	var origin []string
+	for i := 0; i < len(texts)+1; i++ {
+		var m jsonrpc2.Message
+		var err error
+		func() {
+			defer func() {
+				if e := recover(); e != nil {
+					err = fmt.Errorf("PANIC %v", e)
+					o.Oracle("reader-panic", r1line, fmt.Sprint(e))
+				}
+			}()
+			m, _, err = rd.Read(ctx)
+		}()
+		if err == io.EOF {
+			break
+		}
+		if err != nil {
+			if errKind(err, 1) != "decode" {
+				o.Oracle("relay-frame-error", r1line, err.Error())
+				break
+			}
+			o.Count("relay_decode_refused")
+			continue
+		}
+		if i < len(texts) {
+			msgs = append(msgs, m)
+			origin = append(origin, texts[i])
+		}
+	}
+	res1 := readStream(stream1, o, r1line)
+	o.Case(r1line, res1.line, true)
+	// write what was read
+	var buf bytes.Buffer
+	wr := jsonrpc2.HeaderFramer().Writer(&buf)
+	var payloads [][]byte
+	for i, m := range msgs {
+		before := buf.Len()
+		if _, err := wr.Write(ctx, m); err != nil {
+			o.Oracle("relay-write-refused", r1line, canonMsg(m)+": "+err.Error())
+			return
+		}
+		frame := buf.Bytes()[before:]
+		payload, _, ok := refFrame(frame)
+		if !ok {
+			o.Oracle("relay-bad-frame", r1line, "")
+			return
+		}
+		payloads = append(payloads, append([]byte(nil), payload...))
+		want, ok1 := canonPayload([]byte(origin[i]))
+		got, ok2 := canonPayload(payload)
+		if ok1 && ok2 && want != got {
+			o.Oracle("relay-payload", r1line, fmt.Sprintf("message %d: %s => %s", i, want, got))
+		}
+		if strings.Contains(origin[i], "\"data\"") {
+			o.Count("relay_error_with_data")
+		}
+		o.Count("relay_messages")
+	}
+	stream2 := append([]byte(nil), buf.Bytes()...)
+	o.Case("c38w\t"+hexList(payloads), vh.Hex(stream2), len(payloads) >= 1)
+	r2line := "c38r\t" + vh.Hex(stream2)
+	res2 := readStream(stream2, o, r2line)
+	o.Case(r2line, res2.line, len(payloads) >= 1)
+	// pass 2 = pass 1
+	if res2.ends != "eof" || len(res2.msgs) != len(msgs) {
+		o.Oracle("relay-count", r1line, fmt.Sprintf("read %d, wrote %d, read back %d (%s)", len(msgs), len(payloads), len(res2.msgs), res2.ends))
+		return
+	}
+	for i, m := range msgs {
+		if c := canonMsg(m); c != res2.msgs[i] {
+			if strings.HasPrefix(canonID(idOf(m)), "i") && bigAbs(idOf(m)) {
+				o.Oracle("int64-id-float64", r1line, c+" => "+res2.msgs[i])
+			} else {
+				o.Oracle("relay-roundtrip", r1line, c+" => "+res2.msgs[i])
+			}
+		}
+	}
+}
+
+func idOf(m jsonrpc2.Message) jsonrpc2.ID {
+	switch v := m.(type) {
+	case *jsonrpc2.Request:
+		return v.ID
+	case *jsonrpc2.Response:
+		return v.ID
+	}
+	return jsonrpc2.ID{}
+}
+
+func bigAbs(id jsonrpc2.ID) bool {
+	v, ok := id.Raw().(int64)
+	return ok && (v > 1<<53 || v < -(1<<53))
+}
+
 var spaces = []string{" ", "\t", "\r", "\v", "\f", "\u0085", "\u00a0", "\u2003", "\u2028", "\u3000", "\u1680", "\xc2", "\xe2\x80", "\x85", "\u200b", "\ufeff"}
 
 func synthHeaderLine(r *vh.Rand, bodyLen int) string {
@@ -615,7 +860,9 @@ func main() {
 	r := vh.NewRand(f.Seed)
 	for i := 0; i < f.N; i++ {
 		rr := r.Fork(i)
-		switch i % 5 {
+		switch i % 6 {
+		case 5:
+			runRelay(rr, o)
 		case 0, 1:
 			runSequence(rr, o, rr.Intn(6))
 		case 2:
